@@ -122,7 +122,15 @@ pub fn norms_answer(def: &Definition, start: usize, to_end: bool, text: &str) ->
     }
 }
 pub fn norms_line(slot: usize, def: &Definition, start: usize, to_end: bool, text: &str) -> String {
-    let (a, ora) = norms_answer(def, start, to_end, text);
+    let (a, mut ora) = norms_answer(def, start, to_end, text);
+    // a map-only pipeline: the grapheme boundaries the specification needs come from the segmentation library
+    // itself when the implementation did not ask for them (a path that bypasses the map must still meet the spec)
+    if matches!(def.config.normalization.as_slice(), [Normalization::CharsMap { .. }]) {
+        let key = format!(" ORA:graphemes::{}:", hex(text.as_bytes()));
+        if !ora.contains(&key) {
+            ora.push_str(&format!("{}{}", key, hex(&crate::defs::grapheme_ranges(text))));
+        }
+    }
     format!("NORMS {} {} {} {}{} :: {}", slot, start, to_end as u8, hex(text.as_bytes()), ora, a)
 }
 
